@@ -45,6 +45,14 @@ CLAIMS = {
          "Decides: every map range in the pipeline commutes or is sorted before use; the pipeline region writes no package-level state and consults no clock/random/environment/goroutine. "
          "Assumes: sequential Go without those sources is deterministic; comparison methods of constant types reached through py.Eq are pure (dynamic edges leaving the pipeline packages are not followed).",
          "DESIGN.md §4 C18"),
+ "C06": ("own yacc reader + goyacc regeneration compared as position-free syntax trees; grammar production/action table checks; lexer token-table comparison with a frozen Python 3.4 token table",
+         "Decides: y.go is what goyacc generates from grammar.y; operator cascade order, associativity, node construction and flattening discipline; comp_op/augassign tables; operator and keyword tables, longest match, bracket counters and NEWLINE/INDENT gating; "
+         "target contexts set in every binding production. Does not decide: literal values (escape decoding, number conversion), indentation arithmetic, completeness of rejection — functions of input bytes.",
+         "DESIGN.md §4 C06"),
+ "C10": ("recover-barrier recognition and coverage (typed AST): barrier-first in RunFrame/EvalCode/py.Call, single handler dispatch site under a barrier, hooks bound to barrier functions, delivery shape of the deferred closures, census of process-exit calls and goroutines",
+         "Decides: every execution path from the run/call API to opcode handlers and builtins passes through a barrier that converts a recovered panic into the returned error; no goroutine / os.Exit / log.Fatal escape route in library code. "
+         "Does not decide: that no builtin panics (the barriers hold them back; they surface as SystemError), nor the exception class delivered for an internal fault.",
+         "DESIGN.md §4 C10"),
 }
 _todo = "rules for this property are designed (DESIGN.md §4) but not yet implemented in this revision of the checker"
-NA = {p: _todo for p in ["C03","C06","C07","C10","C13","C14","C15","C16","C17"]}
+NA = {p: _todo for p in ["C03","C07","C13","C14","C15","C16","C17"]}
